@@ -168,6 +168,10 @@ def run_case(base, case, acc):
             key = f"C02/xref/{cls}/{name}"
             if cls == "lists-reaction-that-is-not-in-the-model" and all(dangling_is_outside_model(model, e) for e in xe if "dangling" in e) and all("dangling" in e for e in xe):
                 key = "C02/xref/metabolite-or-gene-lists-a-reaction-outside-the-model"
+            if name == "ctx.exit" and isinstance(exc, TypeError) and "of interface type optlang.glpk_interface to model of type optlang.glpk_exact_interface" in str(exc):
+                # the exit itself raised (recorded optlang mechanism of C01/C03): the undo
+                # entries behind the failing one never ran, the model is left half undone
+                key = "C02/xref/after-context-exit-that-raised/glpk_exact-objects-of-glpk-class-after-copy"
             acc.violation(key, f"after {name}: {xe[0]}", w(xref=xe[:6], raised=hist.describe_exc(exc) if exc else None))
             return False
         # ---------------- context bookkeeping
@@ -277,7 +281,39 @@ def _canon(s):
     }
 
 
+def run_probe(pr, acc):
+    """Scripted case for the recorded finding: a context exit that raises (optlang's
+    glpk_exact objects after unpickling) leaves the cross references half undone."""
+    import pickle
+
+    from cobra.manipulation import remove_genes
+    from cv.props.c03 import _probe_model
+
+    model = _probe_model()
+    model.solver = "glpk_exact"
+    model = pickle.loads(pickle.dumps(model))
+    exc = None
+    try:
+        with model:
+            remove_genes(model, ["g1"], remove_reactions=True)
+            model.remove_reactions([model.reactions.T])
+    except Exception as e:
+        exc = e
+    acc.ev()
+    acc.count("probes_run")
+    xe = observe.xref_errors(model)
+    if xe:
+        key = f"C02/xref/{xref_class(xe[0])}/ctx.exit"
+        if isinstance(exc, TypeError) and "of interface type optlang.glpk_interface to model of type optlang.glpk_exact_interface" in str(exc):
+            key = "C02/xref/after-context-exit-that-raised/glpk_exact-objects-of-glpk-class-after-copy"
+        acc.violation(key, f"after ctx.exit: {xe[0]}", {"probe": pr["name"], "xref": xe[:6], "raised": hist.describe_exc(exc) if exc else None})
+
+
 def run_shard(desc, acc):
+    if desc.get("kind") == "probes":
+        for pr in desc["probes"]:
+            run_probe(pr, acc)
+        return
     first = desc.get("first", 0)
     for case in range(first, first + desc["cases"]):
         run_case(desc["base"], case, acc)
